@@ -34,6 +34,7 @@ ProfileC(d) ==
     ordering   |-> \A i \in 1..n : Lt(d.dry[i], d.wp[i]) /\ Lt(d.wp[i], d.fc[i]) /\ Le(d.fc[i], d.sat[i]),
     tauRange   |-> \A i \in 1..n : Ge(d.tau[i], Z) /\ Le(d.tau[i], Units(1)),
     belowZmax  |-> CumTo(d.dzcm, n) >= d.zmaxcm,
+    extent     |-> d.nComp = n /\ Near(d.zSoil, CmToM(CumTo(d.dzcm, n)), T9),
     keepsLayerProps |-> Len(d.layerDefs) = 0 \/
                         \A i \in 1..n : LET L == d.layerDefs[d.layer[i]] IN
                             /\ Near(d.wp[i], L.wp, T9) /\ Near(d.fc[i], L.fc, T9) /\ Near(d.sat[i], L.sat, T9)
@@ -79,7 +80,16 @@ IwcC(d) ==
   ELSE [ interpolation |-> \A i \in 1..Len(d.th0) : InterpOk(d, i) ]
    @@ [ withinRange |-> \A i \in 1..Len(d.th0) : Finite(d.th0[i]) ]
 
-JudgeDoc(d) == LET a == ProfileC(d) b == IwcC(d)
+\* the verdict is total: a profile with non-finite entries or layer numbers outside the described layers is reported as such
+\* (the remaining clauses are not evaluable on it)
+FiniteDoc(d) == AllFinite(d.dry) /\ AllFinite(d.wp) /\ AllFinite(d.fc) /\ AllFinite(d.sat) /\ AllFinite(d.tau) /\ AllFinite(d.ksat)
+                /\ AllFinite(d.pen) /\ AllFinite(d.zbot) /\ AllFinite(d.ztop) /\ AllFinite(d.zmid) /\ AllFinite(d.th0)
+LayersIndexed(d) == /\ Len(d.layer) = Len(d.dzcm)
+                    /\ \A i \in 1..Len(d.layer) : d.layer[i] >= 1 /\ (Len(d.layerDefs) > 0 => d.layer[i] <= Len(d.layerDefs))
+JudgeDoc(d) == IF ~FiniteDoc(d) \/ ~LayersIndexed(d)
+               THEN [ok |-> FALSE, profile |-> (IF FiniteDoc(d) THEN {} ELSE {"finite"}) \cup (IF LayersIndexed(d) THEN {} ELSE {"layerIndex"}), iwc |-> {}]
+               ELSE
+               LET a == ProfileC(d) b == IwcC(d)
                IN [ok |-> (\A k \in DOMAIN a : a[k]) /\ (\A k \in DOMAIN b : b[k]),
                    profile |-> {k \in DOMAIN a : ~a[k]}, iwc |-> {k \in DOMAIN b : ~b[k]}]
 VARIABLES did, verdict
